@@ -29,7 +29,7 @@ Qed.
 Theorem preprocess_is_shifted_call shift c fits :
   preprocess_model shift c fits =
   combine1fiber_model (mkCin (shift_grid shift (c_inloglam c)) (c_flux c) (c_ivar c) (c_specnum c) (c_nspec c)
-                             (c_newloglam c) (c_maxsep c) (c_k c) (c_method c) (c_isort c)) fits.
+                             (c_newloglam c) (c_maxsep c) (c_k c) (c_method c) (c_isort c) (c_stacked c)) fits.
 Proof. reflexivity. Qed.
 
 Lemma Qltb_compat a a' b b' : a == a' -> b == b' -> Qltb a b = Qltb a' b'.
